@@ -15,11 +15,25 @@ contract("monkeytype.db.sqlite:make_query", props=["C09", "C14"], theories=TH,
              "post:table": "sql_table_is(result[0], table)",
          })
 
-contract("monkeytype.encoding:CallTraceRow.from_trace", props=["C09", "C08"], theories=TH, mode="assumed",
-         params={"cls": "any", "trace": "Trace"}, result="Row",
-         ensures={"post:row": "result is ROW(trace)", "post:ok": "encodable(trace)"},
+_WFT = ("is_dictlike_(trace.arg_types) and forall(trace.arg_types, lambda n: wf_st(lookup(trace.arg_types, n)))"
+        " and (trace.return_type is None or wf_st(trace.return_type)) and (trace.yield_type is None or wf_st(trace.yield_type))")
+_PRES = ("ite(trace.{f} is None, result.{f} is None, result.{f} is not None and is_str_(result.{f}) and unboxs(result.{f}) != 'null'"
+         " and encodes(json_loads_(unboxs(result.{f})), trace.{f}))")
+contract("monkeytype.encoding:CallTraceRow.from_trace", props=["C09", "C08"], theories=TH + ["cli", "values", "enc", "path"],
+         params={"cls": "ClassOf:monkeytype.encoding:CallTraceRow", "trace": "Trace"}, result="Row",
+         uses=["monkeytype.encoding:type_to_json"],
+         # the types of the trace are (structurally) types the encoder understands
+         requires={"wf-trace": _WFT},
+         outside_pre="for a trace whose types the encoder does not understand, from_trace either raises an Exception or returns some row (only the definitional clauses apply)",
+         ensures={"post:row": "result is ROW(trace)", "post:ok": "encodable(trace)",
+                  # C08: the row carries the function's module and qualified name and the wire forms of the types; an absent return / yield is NULL (never the text 'null')
+                  "post:module": "result.module is trace.func.__module__", "post:qualname": "result.qualname is trace.func.__qualname__",
+                  "post:args": "is_str_(result.arg_types) and encodes_args(json_loads_(unboxs(result.arg_types)), trace.arg_types)",
+                  "post:return": _PRES.format(f="return_type"), "post:yield": _PRES.format(f="yield_type")},
          raises={"Exception": "not encodable(trace)"},
-         note="callers only need: succeeds with ROW(trace) exactly when the trace is serialisable. Body verified under C08 (encoding contracts).")
+         ensures_exc={"exc:never-for-well-formed": "false"},
+         definitional=["post:row", "post:ok", "raises:Exception"],
+         note="ROW(trace) and encodable(trace) are *defined* by this function (its result / whether it returns); C09 only needs that serialize_traces keeps exactly the traces for which it returns")
 
 contract("monkeytype.encoding:serialize_traces", props=["C09"], theories=TH,
          params={"traces": "Seq[Trace]"}, result="Seq[Row]",
